@@ -2,6 +2,7 @@
    writers.  Property theorems only; proofs are in Proofs/CacheProofs.v. *)
 From Apko Require Import Base.Prelude Model.Cache Spec.CacheSpec Proofs.CacheProofs Proofs.CacheTemp Proofs.CacheCommit Generated.C19Cache.
 From Apko Require Import Model.CacheFlight Spec.CacheFlightSpec Proofs.CacheFlightProofs.
+From Apko Require Import Model.CacheTimes Proofs.CacheTimes.
 From Coq Require Import Permutation.
 Open Scope string_scope. Open Scope list_scope.
 
@@ -740,3 +741,55 @@ Print Assumptions c19_etag_name_length_refuted.
 Theorem c19_names_validator_decides : forall l, validate_names l = [] <-> NamesInjective l.
 Proof. exact validate_names_iff. Qed.
 Print Assumptions c19_names_validator_decides.
+
+(* ======================================================================================
+   Modification times follow from the protocol (Model/CacheTimes.v)
+   ====================================================================================== *)
+
+(* What fetchOffline relies on, proved instead of observed.  For every origin (revisions changing at
+   any step), every list of builders, every schedule and kills, with the modification time of a path
+   = the step of the run that last changed it ([trun]): whatever listing of APKINDEX/ is taken (any
+   candidate names in any order), the entry the choice of THIS run's source opens
+   ([pick_of_filter offline_filter]) is an index revision that
+   - is complete and holds the origin's bytes for its etag,
+   - got its modification time k from the step that ADVERTISED it: the name was absent after the
+     first k steps, present after k+1 with the object it has at the end (never touched again),
+   - and was advertised LAST: every other advertised revision of the directory came into being at a
+     step k' <= k.
+   So an offline build answers with the revision whose download was published last. *)
+Theorem c19_offline_opens_last_advertised : forall origin srv gunzip cl (bs : list builder) sched dir etags pick x,
+  origin_gunzip origin gunzip -> etag_names_content origin srv -> builders_ok origin bs ->
+  pick_of_filter offline_filter = Some pick ->
+  let s0 := init (progs_ord cl bs) in
+  let st := trun gunzip srv s0 sched in
+  pick (index_listing (dsk (fst st)) (snd st) dir etags) = Some x ->
+  In (de_rev x) etags /\ de_whole x = true /\
+  resolve (dsk (fst st)) (PIndex dir (de_rev x)) = Some (origin (PIndex dir (de_rev x)), true) /\
+  exists k, de_mtime x = N.of_nat k /\ k < List.length sched /\
+    dsk (run gunzip srv s0 (firstn k sched)) (PIndex dir (de_rev x)) = None /\
+    dsk (run gunzip srv s0 (firstn (S k) sched)) (PIndex dir (de_rev x)) = dsk (fst st) (PIndex dir (de_rev x)) /\
+    forall e', In e' etags -> dsk (fst st) (PIndex dir e') <> None ->
+      exists k', k' <= k /\ dsk (run gunzip srv s0 (firstn k' sched)) (PIndex dir e') = None /\
+                 dsk (run gunzip srv s0 (firstn (S k') sched)) (PIndex dir e') = dsk (fst st) (PIndex dir e').
+Proof.
+  intros origin srv gunzip cl bs sched dir etags pick x Hgz Hsrv Hok Hp. vm_compute in Hp. inversion Hp; subst pick.
+  exact (offline_opens_last_advertised gunzip origin srv Hgz Hsrv cl bs sched dir etags x Hok).
+Qed.
+Print Assumptions c19_offline_opens_last_advertised.
+
+(* non-vacuity: the origin moves from E1 to E2 at step 12; two index downloads one after the other; both
+   revisions end up advertised, with times 8 and 20 (the steps of their symlinks), and whatever the listing
+   order the entry opened is E2, complete *)
+Definition tm_origin : path -> content := fun n => match n with PIndex _ e => if String.eqb e "E1" then ["a"] else ["b"] | _ => ["?"] end.
+Definition tm_srv : server := fun t dir => let e := if Nat.ltb t 12 then "E1" else "E2" in (e, tm_origin (PIndex dir e)).
+Example c19_times_example :
+  etag_names_content tm_origin tm_srv /\ builders_ok tm_origin [BIndex "i"; BIndex "i"] /\
+  let st := trun (fun z => z) tm_srv (init (progs [BIndex "i"; BIndex "i"])) (repeat 0 12 ++ repeat 1 12) in
+  snd st (PIndex "i" "E1") = Some 8 /\ snd st (PIndex "i" "E2") = Some 20 /\
+  option_map de_rev (pick_newest_adv (index_listing (dsk (fst st)) (snd st) "i" ["E2"; "E1"])) = Some "E2" /\
+  option_map de_rev (pick_newest_adv (index_listing (dsk (fst st)) (snd st) "i" ["E1"; "E2"; "E3"])) = Some "E2" /\
+  option_map de_whole (pick_newest_adv (index_listing (dsk (fst st)) (snd st) "i" ["E1"; "E2"])) = Some true.
+Proof.
+  split; [intros t dir; unfold tm_srv; destruct (Nat.ltb t 12); reflexivity|].
+  split; [intros dir a [E|[E|[]]]; discriminate|]. vm_compute. repeat split.
+Qed.
